@@ -31,7 +31,7 @@ let () =
     match a with
     | [m; h] -> parse_class (int_field m = 1) (lex_bytes (bstr_of_hex h))
     | _ -> failwith "jsparse: arity");
-  (* jswf <5|6> <fuel> <hex real text> (jsfile ...)  ->  <same tokens 0|1|-> | model: <class...> | bytes: <class...> *)
+  (* jswf <5|6> <fuel> <hex real text> (jsfile ...)  ->  <same tokens 0|1|-> model <class...> bytes <class...> chk <file_chk 0|1> *)
   register "jswf" (fun a ->
     match a with
     | fmt :: fuel :: real :: rest ->
@@ -40,11 +40,12 @@ let () =
              let es6 = int_field fmt = 6 in
              let o = { o_fmt = (if es6 then ES6 else ES5); o_msgs = Ops_jsgen.msgs_of msgs; o_order = (fun l -> List.rev l) } in
              let tb = lex_bytes (bstr_of_hex real) in
+             let chk = bool_s (file_chk (if es6 then ES6 else ES5) (nat_of_int 200) (List.map node_of body)) in
              (match gen_file o (nat_of_int (int_field fuel)) (xs (atom name)) (List.map node_of body) with
               | Ok cs ->
                   let tc = lex_chunks cs in
                   let same = match tc, tb with Some x, Some y -> bool_s (toks_eq x y) | _ -> "-" in
-                  [same; "model"] @ parse_class es6 tc @ ["bytes"] @ parse_class es6 tb
-              | _ -> ["-"; "model"; "nogen"; "bytes"] @ parse_class es6 tb)
+                  [same; "model"] @ parse_class es6 tc @ ["bytes"] @ parse_class es6 tb @ ["chk"; chk]
+              | _ -> ["-"; "model"; "nogen"; "bytes"] @ parse_class es6 tb @ ["chk"; chk])
          | _ -> failwith "jswf: bad file sexp")
     | _ -> failwith "jswf: arity")
